@@ -1807,8 +1807,23 @@ class Interp:
             return list(v)
         raise Undecided(f"iteration over {v!r}")
 
+    _KW_OK = {"sorted": {"key", "reverse"}, "min": {"key", "default"}, "max": {"key", "default"}, "enumerate": {"start"}, "zip": {"strict"}, "dict": None,
+              "round": {"ndigits"}, "int": {"base"}, "sum": {"start"}, "itertools.zip_longest": {"fillvalue"}, "itertools.product": {"repeat"},
+              "dataclasses.replace": None, "print": None, "math.isclose": {"rel_tol", "abs_tol"}, "operator.methodcaller": None, "dataclasses.field": None,
+              "dataclasses.dataclass": None, "typing.NamedTuple": None, "copy.deepcopy": {"memo"}, "str": {"encoding", "errors"}, "dataclasses.asdict": {"dict_factory"}}
+
     def call_builtin(self, name, args, kwargs, node=None):
         a = args
+        if kwargs:
+            ok = self._KW_OK.get(name, set()) if name in self._KW_OK else (None if name.split(".")[0] in ("list", "dict", "set", "str", "tuple") else set())
+            if ok is not None and not set(kwargs) <= ok:
+                raise Undecided(f"keyword argument(s) {sorted(set(kwargs) - ok)} of {name} are not modelled")
+        if name == "round" and "ndigits" in kwargs:
+            a = list(a) + [kwargs["ndigits"]]
+        if name == "int" and "base" in kwargs:
+            a = list(a) + [kwargs["base"]]
+        if name == "sum" and "start" in kwargs:
+            a = list(a) + [kwargs["start"]]
         if name.startswith("math."):
             fn = name[5:]
             if any(isinstance(x, Unknown) for x in a):
